@@ -392,6 +392,17 @@ func checkC13(c *Ctx) error {
 		cf.Services[0].Getter, cf.Services[1].Getter = cfg.P("GetIt"), cfg.P("Other")
 		cs = append(cs, coll{cf, true, []string{"a", "c"}, "equal getters on first and third service"})
 	}
+	{
+		// an explicit `todo: false` is not a todo service: equal getters still collide
+		for _, which := range [][]int{{0, 1}, {0}, {1}} {
+			cf := base()
+			cf.Services[0].Getter, cf.Services[1].Getter = cfg.P("GetIt"), cfg.P("GetIt")
+			for _, k := range which {
+				cf.Services[k].Todo = cfg.P(false)
+			}
+			cs = append(cs, coll{cf, true, []string{"a", "b"}, fmt.Sprintf("equal getters, todo: false written on %v", which)})
+		}
+	}
 	c.Set("collision_cases", len(cs))
 	w := c.W
 	var accepted []*probe.Unit
